@@ -279,18 +279,26 @@ pub fn assemble(rng: &mut Rng, which: usize) -> Case {
     }
     "undef_util_in_util" => {
       let mut u = doc.get("utils").cloned().unwrap_or(json!({}));
-      u["extra"] = json!({"kind": "identifier", "matches": "nope"});
+      // the unresolved reference sits behind any operator a reference can sit behind (a relation's
+      // `stopBy` rule and `nthChild.ofRule` included), not only directly in the rule object
+      let mut x = wrap_ref(*rng.pick(&CYCLE_OPS), "nope");
+      x["kind"] = json!("identifier");
+      u["extra"] = x;
       doc.insert("utils".into(), u);
       expect = "Core.Utils.MatchesReference.UndefinedUtil".into();
       true
     }
     "undef_util_in_constraint" if !multi => {
-      doc.insert("constraints".into(), json!({"A": {"kind": "identifier", "matches": "nope"}}));
+      let mut x = wrap_ref(*rng.pick(&CYCLE_OPS), "nope");
+      x["kind"] = json!("identifier");
+      doc.insert("constraints".into(), json!({"A": x}));
       expect = "Core.Rule.MatchesReference.UndefinedUtil".into();
       true
     }
     "undef_util_in_expansion" => {
-      doc.insert("fix".into(), json!({"template": "x", "expandEnd": {"regex": ",", "matches": "nope"}}));
+      let mut x = wrap_ref(*rng.pick(&CYCLE_OPS), "nope");
+      x["regex"] = json!(",");
+      doc.insert("fix".into(), json!({"template": "x", "expandEnd": x}));
       object_form = true;
       expect = "Core.Fixer.WrongExpansion.MatchesReference.UndefinedUtil".into();
       true
